@@ -187,6 +187,21 @@ CHECKS["C17"] = dict(
          "proxy * k, plain + proxy and proxy | mapping return plain built-ins by Python's own dispatch (observation).",
     technique="Lean 4 proof (refinement to a specified built-in; invariant by induction over histories) + three-way correspondence",
     design="6 C17")
+CHECKS["C20"] = dict(
+    text="Lean 4 theorems about a model of stubs.py (get_annotation_typestr, get_method_annotation, generate_stub) as a declaration tree and "
+         "as text: the annotated attributes are exactly the non-method fields in schema order (virtual included) with their type strings; "
+         "the constructor takes exactly the persistent fields (iff, and a sub-list of the attributes); one method per instance-method field; "
+         "for every signature shape (positional-only, positional, *args, keyword-only, **kwargs, annotated or not) Python's reading of the "
+         "rendered parameter list, with its / and * markers, yields the bound function's names and kinds with the first called self; the text "
+         "is one class header followed only by blank or indented lines; line count. No side effect: the translator extracts every output call "
+         "and every write through a non-local object from the current stubs.py and the theorem `no_side_effect` is a decide obligation that "
+         "this list is empty. Correspondence: real stub text == model text line for line over random schemas handed in as Schema, Config and "
+         "ConfigType; CPython's parser/compiler accepts the real text and its tree equals the model's; stdout captured; deep snapshot unchanged.",
+    note="Python's grammar is not modelled: syntactic validity is decided per sample by CPython (ast.parse + compile) - explored, not proved. "
+         "The field class -> type table and repr of typing objects are harness-side / CPython's. Side-effect freedom is a syntactic check of "
+         "stubs.py by the translator plus per-sample observation, not a semantic proof about callees.",
+    technique="Lean 4 proof (list induction; parameter-list reading function) + translator-generated decide obligation + model/implementation correspondence",
+    design="6 C20")
 PENDING = ["C01", "C02", "C03", "C04", "C05", "C06", "C07", "C08", "C09", "C10", "C11", "C12", "C13", "C14", "C15", "C16",
            "C17", "C19", "C20"]
 
